@@ -28,6 +28,17 @@ CHECKS = {
          "sampled (dense around the boundaries), not all float64 values. A slack of 1e-7 minute is allowed at exact rounding ties.",
     technique="TLA+ arithmetic specification, TLC design check (scaled) + TLC validation of recorded real outputs",
     design="4 C20"),
+ "C19": dict(
+    level="model_checking",
+    text="Url.tla gives the expected parse of a component tuple (scheme, userinfo, host, host parameter, digipeater path, target, "
+         "parameters); the harness composes URLs by the documented grammar, calls the real ParseURL and TLC compares every field "
+         "(exhaustive cores + seeded sample of the product; raw and mutated strings must yield URL or error). Dialers.tla models the "
+         "registry as a linearisable object (TLC design check); concurrent register/unregister/dial histories of the real registry, "
+         "run under the race detector, are validated by TLC with the linearisation steps inferred.",
+    note="Trusted: TLC, net/url escaping used for composition, the upper-case table generated with the vocabulary, Go race detector, "
+         "recorder lock as happens-before order. Concurrency is sampled (runtime schedules), not exhaustively scheduled.",
+    technique="TLA+ expected-parse operator + linearisability checking of recorded concurrent histories by TLC",
+    design="4 C19"),
 }
 
 NOT_YET = "check not built yet (work in progress; see DESIGN.md section 8 for the build order)"
